@@ -2,6 +2,7 @@ import LnModel.Sexp
 import LnModel.Ident
 import LnModel.FsExec
 import LnModel.Adapters
+import LnModel.SpecIO
 /-! Line-protocol driver: one s-expression request per line on stdin, one canonical
 s-expression result per line on stdout. -/
 namespace Ln.Driver
@@ -121,7 +122,7 @@ def stepFs (req : Sexp) : Option Sexp :=
   | _ => none
 
 def step (req : Sexp) : Sexp :=
-  match (stepFs req).orElse (fun _ => stepAdapters req) with
+  match ((stepFs req).orElse (fun _ => stepAdapters req)).orElse (fun _ => SpecIO.step req) with
   | some r => r
   | none =>
   match req with
